@@ -12,8 +12,12 @@ one or two generated guards, this file computes the bindings-arm outcome instead
 * the documented contract of the C entry point: inside its domain (`Btc.C04.pre`) it answers the group-law value, outside
   it raises (a bare `ValueError` or worse — `errForeign` unless the site has a handler),
 
-and `Props/C04.lean` proves the derived function equal to the Python arm's table on every class.  Widening a guard in
-the source changes the generated definition and the equality fails on the class let through.
+and `Props/C04.lean` proves the derived function equal to the Python arm's table on every class.  For THREE of the four
+(`mult`, `bytes_from_prv_key_int`, `diffie_hellman`: no handler around the call) widening the guard, or no longer
+establishing a fact, changes the generated definitions and the equality fails on the class let through (confirmed by
+seeded edits of the generated file).  For `_tweak_add_var` it does NOT: the call stands inside `suppress(ValueError)`,
+and `tweak_add_any_guard_agrees` says so explicitly — the agreement there is the handler's doing, for every guard; only
+the established `require_on_curve` matters (a coordinate outside the field would overflow outside the handler).
 -/
 namespace Btc.C04
 open Gen.Backend Gen.BackendSites
@@ -21,15 +25,23 @@ open Gen.Backend Gen.BackendSites
 /-- the C entry point: its value on its domain; a refusal outside it -/
 def cCall (inDomain : Bool) : Outcome := if inDomain then .value else .errForeign
 
-/-- atoms of `mult(m, Q)` / `diffie_hellman(d, Q)` / `_tweak_add_var(Q, t)` on secp256k1 with the bindings serving -/
-def atomsScalarPoint (nonzero : Bool) (q : Point) : Atoms :=
-  { Atoms.ofBits [] with
+/-- the facts the GENERATED `.established` of a site demands: atom `i` is set iff `established` fails without it.
+(So `s1_reduced`, `p1_on_curve` … below are read off the translator's output, not typed here: if the source stops
+establishing one, the atom is false, the domain fails and the derived outcome becomes `errForeign`.) -/
+def factsOf (s : SiteId) : Atoms :=
+  Atoms.ofBits ((List.range atomNames.length).map fun i => !(s.established (allTrueBut [i])))
+
+/-- atoms of `mult(m, Q)` / `diffie_hellman(d, Q)` / `_tweak_add_var(Q, t)` at site `s`, on secp256k1 with the bindings
+serving: the established facts come from `factsOf s`; the rest is what the guard's atomic tests evaluate to on the class -/
+def atomsScalarPoint (s : SiteId) (nonzero : Bool) (q : Point) : Atoms :=
+  let f := factsOf s
+  { f with
     flag := true, ec_is_secp256k1 := true, hf_none_or_sha256 := true,
     s1_nonzero := nonzero,
-    s1_reduced := true,                                  -- `% ec.n` precedes the dispatch (established fact)
     p1_is_generator := q == .generator,
     p1_finite := q != .infinity,
-    p1_on_curve := q.requireOnCurve == none }            -- `require_on_curve` precedes the dispatch
+    -- `require_on_curve` precedes the dispatch IF the generated facts say so; then it holds of what was not refused
+    p1_on_curve := f.p1_on_curve && q.requireOnCurve == none }
 
 namespace Mult
 /-- `_mult_checked` as its two generated guards dispatch it -/
@@ -37,15 +49,16 @@ def bindDerived (m : Scalar) (q : Point) : Outcome :=
   match q.requireOnCurve with
   | some e => e
   | none =>
-    let x := atomsScalarPoint m.reducedNonzero q
-    if mult_checked__libsecp256k1_pubkey_from_prvkey x then cCall (pre .mult_checked__libsecp256k1_pubkey_from_prvkey x)
+    let x1 := atomsScalarPoint .mult_checked__libsecp256k1_pubkey_from_prvkey m.reducedNonzero q
+    let x := atomsScalarPoint .mult_checked__libsecp256k1_multi_mult m.reducedNonzero q
+    if mult_checked__libsecp256k1_pubkey_from_prvkey x1 then cCall (pre .mult_checked__libsecp256k1_pubkey_from_prvkey x1)
     else if mult_checked__libsecp256k1_multi_mult x then cCall (pre .mult_checked__libsecp256k1_multi_mult x)
     else py m q
 end Mult
 
 namespace PubKey
 def bindDerived (q : Scalar) : Outcome :=
-  let x := atomsScalarPoint q.reducedNonzero .generator
+  let x := atomsScalarPoint .bytes_from_prv_key_int__libsecp256k1_pubkey_from_prvkey q.reducedNonzero .generator
   if bytes_from_prv_key_int__libsecp256k1_pubkey_from_prvkey x
   then cCall (pre .bytes_from_prv_key_int__libsecp256k1_pubkey_from_prvkey x) else py q
 end PubKey
@@ -53,7 +66,7 @@ end PubKey
 namespace Dh
 /-- `diffie_hellman`: `bytes_from_point(QV)` is evaluated as the call's argument (it refuses what is off the curve) -/
 def bindDerived (d : Scalar) (q : Point) : Outcome :=
-  let x := atomsScalarPoint d.reducedNonzero q
+  let x := atomsScalarPoint .dh__pubkey_tweak_mul d.reducedNonzero q
   if dh__pubkey_tweak_mul x then
     (match q.requireOnCurve with
      | some e => e
@@ -62,17 +75,22 @@ def bindDerived (d : Scalar) (q : Point) : Outcome :=
 end Dh
 
 namespace TweakAdd
-/-- `_tweak_add_var`: the call stands inside `suppress(ValueError)`; a sum at infinity is the one refusal inside the
-domain, and it falls through to the Python pair -/
-def bindDerived (t : Tweak) (p : Point) : Outcome :=
+/-- `_tweak_add_var` dispatched by an ARBITRARY guard `g`: the call stands inside `suppress(ValueError)`, so whatever the
+guard lets through that the bindings refuse (a key that is no finite point, a sum at infinity) falls to the Python pair.
+What is NOT handled is an exception that is no ValueError: `_sec_from_point` overflowing on a coordinate outside the
+field, which the established `require_on_curve` rules out (read off `factsOf`). -/
+def bindWith (g : Atoms → Bool) (t : Tweak) (p : Point) : Outcome :=
   match p.requireOnCurve with
   | some e => e
   | none =>
-    let x := atomsScalarPoint (t != .zero) p
-    if tweak_add__libsecp256k1_pubkey_tweak_add x then
-      (if pre .tweak_add__libsecp256k1_pubkey_tweak_add x then (if t == .cancels then py t p else .value)
+    let x := atomsScalarPoint .tweak_add__libsecp256k1_pubkey_tweak_add (t != .zero) p
+    if g x then
+      (if !x.p1_on_curve && p != .infinity then .errForeign     -- coordinates never range-checked: OverflowError
+       else if pre .tweak_add__libsecp256k1_pubkey_tweak_add x then (if t == .cancels then py t p else .value)
        else py t p)          -- handled refusal: Python arm
     else py t p
+/-- with the generated guard -/
+def bindDerived (t : Tweak) (p : Point) : Outcome := bindWith tweak_add__libsecp256k1_pubkey_tweak_add t p
 end TweakAdd
 
 end Btc.C04
